@@ -34,9 +34,17 @@ from vf.common import finish, run_sync
 PROP = 'C20'
 
 
+class Gate:
+    '''Awaited by the notify callback when notifications are slow: control goes back to the
+    driver, which resumes the call later (event notify_done).'''
+    def __await__(self):
+        yield self
+
+
 class Sys:
     falling = False
     empties = False          # reports / refreshes may also hand over an EMPTY set
+    suspend = False          # the notify callback is slow: the call that issued it stays in flight
 
     def __init__(self, h0=0):
         from electrumx.server.controller import Notifications
@@ -52,6 +60,8 @@ class Sys:
         self.owed = set()        # tokens handed over after start and not yet notified
         self.src = {}
         self.bad = []
+        self.blocked = {}        # 'b' / 'm' -> the coroutine of the call still in flight
+        self.calling = None
 
     async def _notify(self, height, touched):
         touched = frozenset(touched)
@@ -64,6 +74,20 @@ class Sys:
         is_start_call = self.calls[-2][0] == 'start' if len(self.calls) >= 2 else False
         if not is_start_call and not (seen_mp and seen_bp):
             self.bad.append(('notify-at-unagreed-height', height, seen_mp, seen_bp))
+        if self.suspend and self.calling in ('b', 'm'):
+            await Gate()
+
+    def _drive(self, src, coro):
+        '''Run a call of source src until it returns or blocks in a slow notification.'''
+        self.calling = src
+        try:
+            coro.send(None)
+        except StopIteration:
+            self.calling = None
+            return True
+        self.calling = None
+        self.blocked[src] = coro
+        return False
 
     def token(self, src):
         self.fresh += 1
@@ -81,7 +105,11 @@ class Sys:
             for k in (1, 2):
                 if self.D - k >= 0:
                     ev.append(('daemon_fall', k))
-        if self.ph == 'idle':
+        for src in sorted(self.blocked):
+            ev.append(('notify_done', src))
+        if 'b' in self.blocked:
+            pass                # the block processor is inside on_block
+        elif self.ph == 'idle':
             if self.B < self.D:
                 ev.append(('bp_advance',))
             if self.H < self.B:
@@ -96,7 +124,9 @@ class Sys:
             ev.append(('cu_report',))
             if self.empties:
                 ev.append(('cu_report', 'empty'))
-        if self.mp is None:
+        if 'm' in self.blocked:
+            pass                # the mempool task is inside on_mempool
+        elif self.mp is None:
             if self.D == self.H:
                 ev.append(('mp_begin',))
         else:
@@ -127,7 +157,7 @@ class Sys:
             self.calls.append(('bp', t, self.B))
             self.R = self.B
             self.ph = 'idle'
-            run_sync(self.n.on_block(set() if empty else {t}, self.B))
+            self._drive('b', self.n.on_block(set() if empty else {t}, self.B))
         elif k == 'backup':
             self.B -= ev[1]
             self.H = self.B
@@ -140,7 +170,14 @@ class Sys:
             empty = len(ev) > 1
             t = None if empty else self.token('m')
             self.calls.append(('mp', t, h))
-            run_sync(self.n.on_mempool(set() if empty else {t}, h))
+            self._drive('m', self.n.on_mempool(set() if empty else {t}, h))
+            # the refresh and a block report at h (with the block processor still there) have
+            # both been received: what the refresh handed over must be in a notification now
+            if t is not None and t in self.owed and self.R == h:
+                self.bad.append(('refresh-at-reported-height-not-notified', h, t))
+        elif k == 'notify_done':
+            coro = self.blocked.pop(ev[1])
+            self._drive(ev[1], coro)
         elif k == 'start':
             self.started = True
             self.calls.append(('start', self.H))
@@ -171,7 +208,8 @@ class Sys:
         hbk = frozenset(c[2] if c[0] == 'bp' else c[1] for c in self.calls
                         if c[0] in ('bp', 'start'))
         return (self.D, self.B, self.H, self.R, self.ph, self.mp, self.started,
-                min(self.mp_done, 1), tuple(sorted(keys)), owed, hb, hm, hbk)
+                min(self.mp_done, 1), tuple(sorted(keys)), owed, hb, hm, hbk,
+                tuple(sorted(self.blocked)))
 
 
 def build(hist):
@@ -193,6 +231,9 @@ def check_closings(hist, res):
     # refresh both carry an empty set
     for kind in ('a', 'e'):
         s = build(hist)
+        drained = [('notify_done', src) for src in sorted(s.blocked)]
+        for ev in drained:
+            s.apply(ev)
         seq = []
         if s.mp is not None:
             seq.append(('mp_end',))
@@ -200,6 +241,8 @@ def check_closings(hist, res):
             seq.append(('cu_report',))
         for ev in seq:
             s.apply(ev)
+            for src in sorted(s.blocked):
+                s.apply(('notify_done', src))
         # bring the block processor to the daemon's height
         tail = []
         while s.B < s.D:
@@ -212,7 +255,9 @@ def check_closings(hist, res):
             if ev[:1] not in s.enabled(99):
                 raise common.Broken(f'closing event {ev} not enabled after {hist}+{seq}+{tail}')
             s.apply(ev)
-        full = seq + tail + more
+            for src in sorted(s.blocked):       # slow notifications are delivered in the end
+                s.apply(('notify_done', src))
+        full = drained + seq + tail + more
         res.count('closings')
         if s.owed:
             n += 1
@@ -226,12 +271,12 @@ def check_closings(hist, res):
                           'stranded-above-current-height' if min(hs) > s.D else
                           'pending-at-or-below-current-height')
             res.violation(f'token-lost:{"+".join(sorted(where))}:src={srcs}',
-                          {'hist': hist, 'closing': full},
+                          {'hist': hist, 'closing': full, 'suspend': Sys.suspend},
                           {'history': hist, 'closing': full, 'lost': lost,
                            'calls': s.calls})
         if s.bad:
             n += 1
-            res.violation('notify-at-unagreed-height', {'hist': hist, 'closing': full},
+            res.violation(s.bad[0][0], {'hist': hist, 'closing': full, 'suspend': Sys.suspend},
                           {'history': hist, 'bad': s.bad, 'calls': s.calls})
     return n
 
@@ -240,14 +285,16 @@ def run_case(case, res):
     if 'hist' in case:                      # replay of a single history
         hist = [tuple(e) for e in case['hist']]
         Sys.falling = True
+        Sys.suspend = bool(case.get('suspend'))
         s = build(hist)
         if s.bad:
-            res.violation('notify-at-unagreed-height', case, {'bad': s.bad, 'calls': s.calls})
+            res.violation(s.bad[0][0], case, {'bad': s.bad, 'calls': s.calls})
         check_closings(hist, res)
         return
     maxh, depth = case['maxh'], case['depth']
     Sys.falling = bool(case.get('falling'))
     Sys.empties = bool(case.get('empties'))
+    Sys.suspend = bool(case.get('suspend'))
     root = []
     seen = {build(root).canon()}
     frontier = collections.deque([root])
@@ -261,7 +308,7 @@ def run_case(case, res):
         s = build(hist)
         if s.bad:
             violating += 1
-            res.violation('notify-at-unagreed-height', {'hist': hist},
+            res.violation(s.bad[0][0], {'hist': hist, 'suspend': Sys.suspend},
                           {'history': hist, 'bad': s.bad, 'calls': s.calls})
             continue
         if check_closings(hist, res):
@@ -285,7 +332,7 @@ def run_case(case, res):
     res.sample({'example_history': [list(e) for e in hist], 'calls_on_real_object': build(hist).calls})
 
 
-ALL_EVENTS = {'cu_report-empty', 'mp_end-empty', 'daemon_fall', 'new_block', 'bp_advance', 'bp_flush', 'cu_flush', 'cu_report', 'backup',
+ALL_EVENTS = {'notify_done', 'cu_report-empty', 'mp_end-empty', 'daemon_fall', 'new_block', 'bp_advance', 'bp_flush', 'cu_flush', 'cu_report', 'backup',
               'mp_begin', 'mp_end', 'start'}
 
 
@@ -296,8 +343,10 @@ def run(tier, seed, started):
     res = common.farm(run_case, [{'maxh': maxh, 'depth': depth},
                                  {'maxh': fmaxh, 'depth': depth, 'falling': True},
                                  {'maxh': emaxh, 'depth': depth, 'empties': True},
-                                 {'maxh': emaxh - 1, 'depth': depth, 'empties': True, 'falling': True}],
-                      seed=seed, nproc=4, chunk=1)
+                                 {'maxh': emaxh - 1, 'depth': depth, 'empties': True, 'falling': True},
+                                 {'maxh': emaxh, 'depth': depth, 'suspend': True},
+                                 {'maxh': emaxh - 1, 'depth': depth, 'suspend': True, 'falling': True}],
+                      seed=seed, nproc=6, chunk=1)
     c = res.counters
     if c.get('states', 0) < 500 or res.sets.get('event_kinds') != ALL_EVENTS:
         common.vacuous(PROP, res, f'vacuous C20 run: {c} {res.sets.get("event_kinds")}')
@@ -322,7 +371,9 @@ def run(tier, seed, started):
     assumptions = ['phase 1: daemon height never decreases (C03 premise); phase 2: the daemon may '
                    f'also fall by 1 or 2 (heights 0..{fmaxh}), which is what makes reported heights '
                    f'fall; phases 3 and 4 (heights 0..{emaxh} / 0..{emaxh - 1} with a falling daemon): '
-                   'every report and refresh may also carry an empty set',
+                   'every report and refresh may also carry an empty set; phases 5 and 6 (same '
+                   'heights): the notify callback is slow, the call that issued it stays in flight '
+                   'while the other source keeps calling',
                    'a token stands for any non-empty set of script hashes']
     return finish(PROP, tier, seed, 'model_checking', res, coverage, assumptions, started)
 
